@@ -142,7 +142,7 @@ def handshake(rng, run):
     if not g.endswith(b"\n"):
         pre.append([{"op": "fault", "kind": "eof"}])
     if rng.random() < 0.6:
-        pw = rng.choice([b"secret", b"pass word", b"p(q)", b"x", b"\xc3\xa9t\xc3\xa9"])
+        pw = rng.choice([b"secret", b"pass word", b"p(q)", b"x", b"\xc3\xa9t\xc3\xa9", b"", b"", b" ", b"tab\there"])   # (an empty password is still one argument)
         cfg["password"] = list(pw)
         cfg["connect"] = rng.choice(["password", "password_opt"])
         cfg["auth"] = rng.choice(["ok", "ok", "ok", "ack", "ack4", "garbage", "eof", "partial"])
